@@ -16,15 +16,16 @@ from mc import core
 
 LEVEL = 'model_checking'
 RULE = ('all operation histories of length <= H over {G1 fresh-generator hierarchy, G1r reused-generator hierarchy, G2 getVerilog(child) '
-        'on the reused top-rooted generator, G2f getVerilog(child) from fresh generators rooted at the parent and at the child, G3 '
-        'getVerilogForHierarchy(child), Gx hierarchy of a second circuit, P inlinePrimitive, S clk(1) with the next input vector, M add '
+        'on the reused top-rooted generator, G2f getVerilog(child) from fresh generators rooted at the parent and at the child (G2/G2f '
+        'alternate between the child and, in circuit beh, the second instance of a behavioural class), G3 '
+        'getVerilogForHierarchy(child) alternating with the stand-alone hierarchy of a second instance of the child\'s class (circuit comb), Gx hierarchy of a second circuit, P inlinePrimitive, S clk(1) with the next input vector, M add '
         'a block then regenerate}; states = (history) nodes of the prefix tree, transitions = operations executed; every history is '
         'executed on freshly built circuits (traces_validated_against_impl = histories)')
 ASSUMPTIONS = ['normalisation: hex id suffixes renumbered by first appearance; contiguous runs of wire declarations sorted; nothing else',
                'a caller-owned createdStructures list: entries never disappear, and a request given the list answers like a fresh generator given a copy of it',
                'every shard runs in a freshly forked process (no transpilation has happened in the parent), so class-level tables start empty',
                'canonical answers are taken from a pristine build at the start of each shard']
-BOUNDS = {'quick': 'H = 4, five circuits (three different transpiled classes with a parent-to-child forwarded Verilog parameter, combinational hierarchy with shared named modules, ModuloCounter, transpiled FSM + registers, a sub-block in its own named clock domain)',
+BOUNDS = {'quick': 'H = 4, five circuits + circuit beh paired with a second circuit whose generation must be refused (four different transpiled classes, two instances of one of them with different constructor arguments, a parent-to-child forwarded Verilog parameter, combinational hierarchy with shared named modules, ModuloCounter, transpiled FSM + registers, a sub-block in its own named clock domain)',
           'thorough': 'H = 5, same circuits'}
 
 OPS = ['G1', 'G1r', 'G2', 'G2f', 'G3', 'G4', 'Gx', 'L', 'P', 'S', 'M']
@@ -121,6 +122,29 @@ class Pulse(Logic):
             self.q.prepare(0)
 
 
+class TernFirst(Logic):
+    """clock() starts with a legal conditional expression"""
+    def __init__(self, parent, name, a, r):
+        super().__init__(parent, name)
+        self.a = self.addIn('a', a)
+        self.r = self.addOut('r', r)
+
+    def clock(self):
+        v = 1 if self.a.get() > 1 else 2
+        self.r.prepare(v)
+
+
+class TernInCall(Logic):
+    """outside the transpiler's subset: a conditional expression as a call argument"""
+    def __init__(self, parent, name, a, r):
+        super().__init__(parent, name)
+        self.a = self.addIn('a', a)
+        self.r = self.addOut('r', r)
+
+    def clock(self):
+        self.r.prepare(1 if self.a.get() > 1 else 2)
+
+
 class Scaler(Logic):
     """a third one whose local variable has the name of Pulse's constructor argument"""
     def __init__(self, parent, name, a, r):
@@ -144,8 +168,13 @@ def build(kind):
         py4hw.Add(hw, 'add_top', a, r0, r1)
         c.prim = py4hw.And2(hw, 'and_top', a, b, n)
         py4hw.Abs(hw, 'abs_top', n, r2)
+        # a second instance of the same class with other widths (no shared module name: per-instance modules)
+        a3, r3 = hw.wire('a3', 3), hw.wire('r3', 3)
+        py4hw.ZeroExtend(hw, 'zx', a, a3)
+        c.child2 = Inner(hw, 'inner_wide', a3, a3, r3)
         c.free = [a, b]
-        c.edit = lambda: py4hw.Not(hw, 'extra', r2, hw.wire('extra', 2))
+        # the edit gives the so far purely combinational top its first clocked element
+        c.edit = lambda: py4hw.Reg(hw, 'extra', r2, hw.wire('extra', 2))
     elif kind == 'seq':
         rs, inc = hw.wire('reset'), hw.wire('inc')
         q, co, n = hw.wire('q', 3), hw.wire('co'), hw.wire('n')
@@ -177,14 +206,29 @@ def build(kind):
         # several different transpiled classes in one design + a parameter forwarded from parent to children
         a, load = hw.wire('a', 2), hw.wire('load')
         r, q, s2, n = hw.wire('r', 2), hw.wire('q'), hw.wire('s2', 2), hw.wire('n', 2)
+        TernFirst(hw, 'tern', a, hw.wire('t', 2))        # first behavioural block of the hierarchy: starts with a legal ternary
         c.child = Pair(hw, 'pair', a, load, r, 2)
         Pulse(hw, 'pulse', 2, q)
+        c.alt = Pulse(hw, 'pulse_slow', 3, hw.wire('q3'))        # same class, another constructor argument
         Scaler(hw, 'scaler', r, s2)
         c.prim = py4hw.Not(hw, 'not_top', s2, n)
         c.free = [a, load]
         c.edit = lambda: py4hw.Not(hw, 'extra', n, hw.wire('extra', 2))
+    elif kind == 'refuse':
+        # a block the transpiler must refuse (ternary inside a call): requests for this circuit raise
+        a, r = hw.wire('a', 2), hw.wire('r', 2)
+        c.child = TernInCall(hw, 'bad', a, r)
+        c.prim = py4hw.Not(hw, 'not_top', r, hw.wire('n', 2))
+        c.free = [a]
+        c.edit = lambda: None
     else:
         raise ValueError(kind)
+    if not hasattr(c, 'child2'):
+        c.child2 = None
+    if not hasattr(c, 'alt'):
+        c.alt = None
+    c.ng2 = 0
+    c.ng3 = 0
     c.lst = []          # the caller-owned list of already emitted structures (op L)
     c.nl = 0
     c.sim = hw.getSimulator()
@@ -206,17 +250,35 @@ def request(c, op, c2):
         return [('hier', normalise(VG(top).getVerilogForHierarchy()))]
     if op == 'G1r':
         return [('hier', normalise(c.gen.getVerilogForHierarchy()))]
-    if op == 'G2':
-        return [('child', normalise(c.gen.getVerilog(c.child)))]
-    if op == 'G2f':
-        return [('child', normalise(VG(c.child.parent).getVerilog(c.child))),
-                ('child', normalise(VG(c.child).getVerilog()))]
+    if op in ('G2', 'G2f'):
+        # single-module text of the child and, where the circuit has one, of a second instance of a behavioural class
+        # whose first instance precedes it in the hierarchy - alternately
+        tgt, key = c.child, 'child'
+        if c.alt is not None:
+            if c.ng2 % 2 == 1:
+                tgt, key = c.alt, 'alt'
+            c.ng2 += 1
+        if op == 'G2':
+            return [(key, normalise(c.gen.getVerilog(tgt)))]
+        return [(key, normalise(VG(tgt.parent).getVerilog(tgt))),
+                (key, normalise(VG(tgt).getVerilog()))]
     if op == 'G3':
-        return [('childhier', normalise(VG(top).getVerilogForHierarchy(c.child, noInstanceNumberInTopEntity=False)))]
+        # alternately the child (keeping its instance number) and, where there is one, the second instance of the child's
+        # class as a stand-alone top entity (default arguments)
+        k = c.ng3 % 2 if c.child2 is not None else 0
+        c.ng3 += 1
+        if k == 0:
+            return [('childhier', normalise(VG(top).getVerilogForHierarchy(c.child, noInstanceNumberInTopEntity=False)))]
+        return [('childhier2', normalise(VG(top).getVerilogForHierarchy(c.child2)))]
     if op == 'G4':
         return [('topmodule', normalise(c.gen.getVerilog(top, noInstanceNumber=True)))]
     if op == 'Gx':
-        return [('hier2', normalise(VG(c2.sys).getVerilogForHierarchy()))]
+        try:
+            return [('hier2', normalise(VG(c2.sys).getVerilogForHierarchy()))]
+        except Exception as e:
+            if c2.kind != 'refuse':
+                raise
+            return [('hier2', 'REFUSED')]
     if op == 'P':
         return [('prim', VG(top).inlinePrimitive(c.prim))]
     if op == 'L':
@@ -242,6 +304,14 @@ def canonical(kind, kind2):
                 c.sys.getSimulator()
             for k, t, *_ in request(c, op, None):
                 out[(k, edited)] = t
+            if (op == 'G3' and c.child2 is not None) or (op == 'G2' and c.alt is not None):
+                c = build(kind)
+                if edited:
+                    c.edit()
+                    c.sys.getSimulator()
+                c.ng3 = c.ng2 = 1
+                for k, t, *_ in request(c, op, None):
+                    out[(k, edited)] = t
     c2 = build(kind2)
     out[('hier2', False)] = out[('hier2', True)] = request(build(kind), 'Gx', c2)[0][1]
     return out
@@ -305,7 +375,7 @@ def first_diff(a, b):
     return {'line': min(len(la), len(lb)), 'canonical_lines': len(la), 'got_lines': len(lb)}
 
 
-KINDS = [('comb', 'seq'), ('seq', 'fsm'), ('fsm', 'comb'), ('multiclk', 'comb'), ('beh', 'fsm')]
+KINDS = [('comb', 'seq'), ('seq', 'fsm'), ('fsm', 'comb'), ('multiclk', 'comb'), ('beh', 'fsm'), ('beh', 'refuse')]
 
 
 def shards(tier):
